@@ -161,20 +161,23 @@ def observe_sink(event):
 _classes = {}
 
 
+def make_trait(kind, mode, default, orig=False, variant=""):
+    """The definition of trait x (a fresh object each time: also what add_trait("x", ...) is given)."""
+    cls_t = PickOriginal if orig else Pick
+    if variant == "any":              # built-in Any: no validate function at all (the `validate == NULL` branches)
+        return Any(POOL[default], comparison_mode=MODES[mode]) if kind == "normal" else Event()
+    if variant == "ddef" and kind == "normal":      # dynamic default: _x_default method instead of a constant
+        return cls_t(comparison_mode=MODES[mode])
+    return cls_t(default_value=POOL[default], comparison_mode=MODES[mode]) if kind == "normal" else Event(Pick())
+
+
 def make_class(kind, mode, default, statics, orig=False, variant=""):
     key = (kind, mode, default, tuple(sorted(statics)), bool(orig), variant)
     if key in _classes:
         return _classes[key]
-    cls_t = PickOriginal if orig else Pick
-    if variant == "any":              # built-in Any: no validate function at all (the `validate == NULL` branches)
-        inner = Any(POOL[default], comparison_mode=MODES[mode]) if kind == "normal" else None
-        ns = {"x": inner if kind == "normal" else Event()}
-    elif variant == "ddef" and kind == "normal":      # dynamic default: _x_default method instead of a constant
-        inner = cls_t(comparison_mode=MODES[mode])
-        ns = {"x": inner, "_x_default": (lambda self, d=default: POOL[d])}
-    else:
-        inner = cls_t(default_value=POOL[default], comparison_mode=MODES[mode]) if kind == "normal" else Pick()
-        ns = {"x": inner if kind == "normal" else Event(inner)}
+    ns = {"x": make_trait(kind, mode, default, orig, variant)}
+    if variant == "ddef" and kind == "normal":
+        ns["_x_default"] = (lambda self, d=default: POOL[d])
     if "any" in statics:
         def _anytrait_changed(self, name, old, new):
             if name == "x":
@@ -210,8 +213,17 @@ def make_otc(hid):
 
 
 class MethodOwner:
+    """Owner of bound-method handlers.  All owners compare EQUAL (like dataclass instances with equal fields) and are
+    distinct objects: registration must tell them apart by identity."""
+
     def __init__(self, hid):
         self.hid = hid
+
+    def __eq__(self, other):
+        return isinstance(other, MethodOwner)
+
+    def __hash__(self):
+        return 17
 
     def legacy(self, obj, name, old, new):
         record(self.hid, old, new)
@@ -289,6 +301,9 @@ def run_case(case):
                 a.x = POOL[op[1]]
             elif op[0] == "Delete":
                 del a.x
+            elif op[0] == "Retrait":
+                a.add_trait("x", make_trait(case["kind"], case["mode"], case["default"], case.get("orig", False),
+                                            case.get("variant", "")))
             elif op[0] == "QuietAssign":
                 a.trait_set(trait_change_notify=False, x=POOL[op[1]])
             else:
